@@ -109,7 +109,7 @@ def modelObs (st : State) (ws : List String) : Option (State × String) :=
   | _ => none
 
 /-- observations the oracle is fed for one line (independent of the model) -/
-def obsOf (ws : List String) (obs : String) : List Obs :=
+def obsOf1 (ws : List String) (obs : String) : List Obs :=
   let ows := words obs
   let vs := (verdictsOf obs).map (fun (b, v) => Obs.verdict b v)
   match ws with
@@ -130,6 +130,17 @@ def obsOf (ws : List String) (obs : String) : List Obs :=
       | [b, c] => (nat! b, nat! c)
       | _ => (0, 0)))]
   | _ => vs
+
+/-- Lines that start a new dispatcher event are written after the driver's barrier for the previous event, i.e.
+with the dispatcher at rest and every offered job taken: the quiescence clause is evaluated first.  (`quit` is not
+such a line: the driver may stop the work manager while a job is on offer.) -/
+def obsOf (ws : List String) (obs : String) : List Obs :=
+  match ws with
+  | "batch" :: _ | "peer" :: _ | "result" :: _ | "wake" :: _ | "elapse" :: _ =>
+    (match ws with
+     | ["peer", p] => Obs.quiescent :: Obs.connected (nat! p) :: obsOf1 ws obs
+     | _ => Obs.quiescent :: obsOf1 ws obs)
+  | _ => obsOf1 ws obs
 
 /-- `a/b` -/
 def parseFrac (s : String) : Nat × Nat :=
